@@ -797,17 +797,17 @@ def run(chk):
                 cases.append(c)
     ncorpus = len(cases)
     rng = chk.rng("listnode-random")
-    cases += [gen_random(rng, i) for i in range(chk.pick(4000, 150000))]
+    cases += [gen_random(rng, i) for i in range(chk.pick(4000, 60000))]
     rng2 = chk.rng("drift")
     cases += [gen_drift(rng2, i) for i in range(chk.pick(200, 3000))]
     nrandom = len(cases) - ncorpus
     if chk.thorough:
-        exh = list(gen_exhaustive(3, 1, 0)) + list(gen_exhaustive(5, 40, chk.seed))
+        exh = list(gen_exhaustive(3, 1, 0)) + list(gen_exhaustive(5, 80, chk.seed))
     else:
         exh = list(gen_exhaustive(2, 1, 0)) + list(gen_exhaustive(4, 60, chk.seed))
     cases += exh
     chk.units["U-listnode"] = {"corpus": ncorpus, "random": nrandom, "exhaustive_small": len(exh)}
-    chk.exhaustive = {"lists over {1,2,4,J} with one shortcut word at every position x every single edit": "length <= 3 complete" if chk.thorough else "length <= 2 complete", "longer": "strided sample (stride 40 up to length 5)" if chk.thorough else "strided sample (stride 60 up to length 4)"}
+    chk.exhaustive = {"lists over {1,2,4,J} with one shortcut word at every position x every single edit": "length <= 3 complete" if chk.thorough else "length <= 2 complete", "longer": "strided sample (stride 80 up to length 5)" if chk.thorough else "strided sample (stride 60 up to length 4)"}
 
     impl = pmap(run_impl, cases, workers=WORKERS, chunksize=64)
     table = _model_results(drv, impl) if drv.ok else {}
